@@ -161,8 +161,16 @@ def r_tags(c):
                 if k.arg == "comm_tag" and isinstance(k.value, ast.Subscript):
                     maps.add((ast.unparse(call.func.value), ast.unparse(k.value.value),
                               ast.unparse(k.value.slice)))
-    ends = {e[0] for e in maps}
-    c.check(ends == {"recv", "send"} and len({e[1] for e in maps}) == 1 and all(
+    # one rewrite under name_to_recv_node=..., one under name_to_send_nodes=...
+    ends = set()
+    for kw, end in (("name_to_recv_node", "recv"), ("name_to_send_nodes", "send")):
+        for call in ast.walk(fd):
+            if isinstance(call, ast.Call):
+                for k in call.keywords:
+                    if k.arg == kw and has(k.value, "$x.copy(comm_tag=$map[$x.comm_tag])"):
+                        ends.add(end)
+    c.check(ends == {"recv", "send"} and len(maps) == 2
+            and len({e[1] for e in maps}) == 1 and all(
         e[2] == f"{e[0]}.comm_tag" for e in maps), "R09-TAGS",
         "distributed.tags.number_distributed_tags", "one-mapping-for-both-ends", where,
         f"receives and sends are not both renumbered as map[own symbolic tag] through "
